@@ -265,7 +265,7 @@ def kernel_sections(obs):
         + ' ' + ' '.join(map(str, r['perm'])) + ' ' + ' '.join(common.frac(v) for v in r['smooth'])
         for r in fl))
     bo = _dedupe([s for s in tr.sorts if s['by'] == 'height_base' and s['perm'] is not None
-                  and not np.isnan(s['keys']).any()], lambda s: s['keys'].tobytes())
+                  and s.get('dtype') != 'object' and not np.isnan(s['keys']).any()], lambda s: s['keys'].tobytes())
     secs.append('BORD ' + ' ; '.join(
         f"{len(s['keys'])} " + ' '.join(common.frac(v) for v in s['keys']) + ' ' + ' '.join(map(str, s['perm']))
         for s in bo))
@@ -279,6 +279,111 @@ def met_request(obs, which):
             'IDS ' + ' '.join(map(str, lv['ids']))] + kernel_sections(obs) + [
         'TABLE ' + ' ; '.join(lv['table']), 'MSG ' + lv['msg']]
     return ' | '.join(secs)
+
+
+def _hmode(eff):
+    sp = eff['SLICING_PRMS']
+    mode = sp.get('height_scale_mode')
+    kw = sp.get('height_scale_kwargs') or {}
+    if mode == 'minmax-scale':
+        if 'min_val' in kw and 'max_val' in kw:
+            return None
+        return 'minmax:' + common.frac(kw.get('min_range', 0))
+    if mode == 'shift-and-scale':
+        sh = kw.get('shift')
+        return 'shift:{}:{}'.format('nan' if sh is None else common.frac(sh), common.frac(kw.get('scale', 1)))
+    if mode == 'step-scale':
+        return 'step:{}:{}'.format(','.join(common.frac(v) for v in kw['steps']), ','.join(common.frac(v) for v in kw['scales']))
+    if mode is None:
+        return 'none'
+    return None
+
+
+def prm_section_full(eff, flag):
+    """PRM section with every leaf the cascade reads; None if some leaf is outside the modelled domain."""
+    base = prm_section(eff, flag)
+    hm = _hmode(eff)
+    if hm is None:
+        return None
+    g, l = eff['GROUPING_PRMS'], eff['LAYERING_PRMS']
+    kw = l['gmm_kwargs']
+    rng_ = g['height_scale_range']
+    extra = ' sep_vals={} sep_lims={} thr={} sdt={} hmode={} pad={} gdt={} hlo={} hhi={} split={} scores={} mode={} minprob={} gain={} rescale={}'.format(
+        ','.join(common.frac(v) for v in eff['MIN_SEP_VALS']), ','.join(common.frac(v) for v in eff['MIN_SEP_LIMS']),
+        common.frac(eff['SLICING_PRMS']['distance_threshold']), common.frac(eff['SLICING_PRMS']['dt_scale']), hm,
+        common.frac(g['height_pad_perc']), common.frac(g['dt_scale']), common.frac(min(rng_)), common.frac(max(rng_)),
+        common.frac(l['min_okta_to_split']), kw.get('scores', 'BIC'), kw.get('mode', 'delta'),
+        common.frac(kw.get('min_prob', 1.0)), common.frac(kw.get('delta_mul_gain', 1.0)),
+        'nan' if kw.get('rescale_0_to_x') is None else common.frac(kw['rescale_0_to_x']))
+    return base + extra
+
+
+def run_request(obs):
+    """The end-to-end request for a scene that ran to completion (all three stages)."""
+    prm = prm_section_full(obs['eff'], obs['flag'])
+    if prm is None:
+        return None
+    tr = obs['trace']
+    chunk = obs['chunk']
+    secs = ['RUN', prm,
+            'ROWS ' + ' ; '.join(f'{tok(c)} {common.frac(dt)} {common.frac(h)} {t}' for c, dt, h, t in obs['rows'])]
+    secs += kernel_sections(obs)
+    cl = [c for c in tr.cluster if 'labels' in c]
+    secs.append('CLUST ' + ' ; '.join(
+        f"{c['kwargs'].get('linkage')} {common.frac(c['kwargs'].get('distance_threshold'))} {len(c['pts'])} "
+        + ' '.join(f'{common.frac(x)} {common.frac(y)}' for x, y in c['pts']) + ' ' + ' '.join(str(int(v)) for v in c['labels'])
+        for c in cl))
+    gm = []
+    for g in tr.gmm:
+        sc = g['kwargs'].get('scores', 'BIC')
+        for k, f in sorted(g['fits'].items()):
+            if 'labels' in f and 'score' in f and 'vals' in f:
+                gm.append(f"{sc} {k} {len(f['vals'])} " + ' '.join(common.frac(v) for v in f['vals']) + ' '
+                          + ' '.join(str(int(v)) for v in f['labels']) + ' ' + common.frac(f['score']))
+    secs.append('GMM ' + ' ; '.join(gm))
+    secs.append('BPROB ' + ' ; '.join(
+        f"{common.frac(b['kwargs'].get('min_prob', 1.0))} {b['out']} " + ' '.join(common.frac(v) for v in b['abics'])
+        for b in tr.best_gmm if b['kwargs'].get('mode') == 'prob'))
+    secs.append('ASORT ' + ' ; '.join(
+        f"{len(a['vals'])} " + ' '.join(common.frac(v) for v in a['vals']) + ' ' + ' '.join(map(str, a['perm']))
+        for a in tr.argsort))
+    po = _dedupe([s for s in tr.sorts if s['by'] == 'height_base' and s['perm'] is not None
+                  and s.get('dtype') == 'object' and not np.isnan(s['keys']).any()], lambda s: s['keys'].tobytes())
+    secs.append('PORD ' + ' ; '.join(
+        f"{len(s['keys'])} " + ' '.join(common.frac(v) for v in s['keys']) + ' ' + ' '.join(map(str, s['perm']))
+        for s in po))
+    secs.append(data_section(obs['data']))
+    secs.append('FLAG ' + ('T' if obs['flag'] else 'F'))
+    secs.append('SIDS ' + ' '.join(str(int(v)) for v in chunk.data['slice_id']))
+    secs.append('GIDS ' + ' '.join(str(int(v)) for v in chunk.data['group_id']))
+    secs.append('LIDS ' + ' '.join(str(int(v)) for v in chunk.data['layer_id']))
+    secs.append('TSLICES ' + ' ; '.join(table_rows(chunk.slices)))
+    secs.append('TGROUPS ' + ' ; '.join(table_rows(chunk.groups)))
+    secs.append('TLAYERS ' + ' ; '.join(table_rows(chunk.layers)))
+    secs.append(f'NW {chunk.n_slices} {chunk.n_groups} {chunk.n_layers}')
+    secs.append('MSGS ' + ' / '.join(chunk.metar_msg(w) for w in ('slices', 'groups', 'layers')))
+    return ' | '.join(secs)
+
+
+def parse_run_answer(ans):
+    out = {'ne': [], 'spec': [], 'bad': False}
+    if not ans.startswith('RUN'):
+        out['bad'] = True
+        return out
+    body = ans[3:].strip()
+    if body == 'ok':
+        return out
+    if body.startswith('bad-request'):
+        out['bad'] = True
+        return out
+    for f in body.split('; '):
+        if f.startswith('NE '):
+            out['ne'].append(f[3:])
+        elif f.startswith('SPEC '):
+            out['spec'].append(f[5:])
+        else:
+            out['ne'].append('unparsed:' + f)
+    return out
 
 
 def parse_met_answer(ans):
